@@ -16,8 +16,9 @@ PY = os.path.join(ROOT, '.venv', 'bin', 'python')
 class Ob:
     """one proof obligation: a harness function explored over all its feasible paths"""
     def __init__(self, name, fn, budget_s=120, bounds='', functions=(), outside='', stubs=(), max_paths=500000,
-                 validate=6, expect_paths_min=1, optimize=0):
+                 validate=6, expect_paths_min=1, optimize=0, debug_log=False):
         self.name = name
+        self.debug_log = debug_log      # True: the `cardutil` loggers are at DEBUG while the obligation is explored and replayed
         self.optimize = optimize        # 1: the cardutil modules are compiled as under python -O (asserts removed); replays run under python -O
         self.fn = fn
         self.budget_s = budget_s
@@ -53,6 +54,7 @@ def unjson(x):
 
 
 OPT_SUFFIX = '/python-O'
+DBG_SUFFIX = '/debug-logging'
 
 
 def all_obligations(mod, tier):
@@ -68,13 +70,39 @@ def all_obligations(mod, tier):
             t = Ob(o.name + OPT_SUFFIX, o.fn, o.budget_s, o.bounds + ' [under python -O]', o.functions, o.outside, o.stubs, o.max_paths,
                    o.validate, o.expect_paths_min, optimize=1)
             twins.append(t)
+    # ... and, for the names in DEBUG_LOG, a twin explored with debug logging switched on (the command-line tools' --debug): code that is
+    # guarded by LOGGER.isEnabledFor(DEBUG) runs, and so do the arguments of logging calls
+    for o in obs:
+        if o.optimize or o.debug_log or o.name.endswith(OPT_SUFFIX) or o.name.endswith(DBG_SUFFIX):
+            continue
+        if any((w == o.name) or (w.endswith('*') and o.name.startswith(w[:-1])) for w in getattr(mod, 'DEBUG_LOG', ())):
+            twins.append(Ob(o.name + DBG_SUFFIX, o.fn, o.budget_s, o.bounds + ' [debug logging on]', o.functions, o.outside, o.stubs, o.max_paths,
+                            o.validate, o.expect_paths_min, debug_log=True))
     return obs + twins
 
 
-def _mark_mode(x):
+def _mark_mode(x, mode='-O'):
     if isinstance(x, dict) and 'kind' in x and 'args' in x:
-        x.setdefault('mode', '-O')
+        x.setdefault('mode', mode)
     return x
+
+
+class _Null(__import__('logging').Handler):
+    def emit(self, record):
+        pass
+
+
+def _debug_logging(on):
+    import logging
+    lg = logging.getLogger('cardutil')
+    if on:
+        if not any(isinstance(h, _Null) for h in lg.handlers):
+            lg.addHandler(_Null())
+        lg.setLevel(logging.DEBUG)
+        lg.propagate = False
+    else:
+        lg.setLevel(logging.NOTSET)
+        lg.propagate = True
 
 
 def _run_one(prop, tier, name, seed):
@@ -91,6 +119,7 @@ def _run_one(prop, tier, name, seed):
         ob = obs[name]
         from harness import common as _common
         _common.DEFAULT_OPT[0] = 1 if ob.optimize else 0
+        _debug_logging(ob.debug_log)
         out['bounds'] = ob.bounds
         out['outside'] = ob.outside
         out['stubs'] = list(ob.stubs)
@@ -98,12 +127,34 @@ def _run_one(prop, tier, name, seed):
         os.environ.setdefault('VSYM_CROSSCHECK_CAP', '300' if tier == 'quick' else '5000')
         ex = core.Explorer(max_paths=ob.max_paths, deadline_s=ob.budget_s, stop_on_violation=False)
         ex.max_violations = 40
+        # watchdogs: the path explorer checks its deadline between paths only.  A soft alarm ends a path that does not come back (an
+        # endless loop the fuel does not see, native code that polls for signals such as the regular expression engine); a hard one
+        # ends the worker if even that does not help, so that a check always terminates.
+        import faulthandler
+        import signal
+
+        def _soft(signum, frame):
+            raise core.Inconclusive('a single path ran past the time budget of the obligation (%ds + 60s)' % ob.budget_s)
+        try:
+            signal.signal(signal.SIGALRM, _soft)
+            signal.alarm(int(ob.budget_s) + 60)
+            faulthandler.dump_traceback_later(ob.budget_s + 300, exit=True)
+        except (ValueError, OSError):
+            pass
         try:
             ex.explore(ob.fn)
         except loader.LoaderReject as e:
             out['reason'] = 'loader: %s' % e
             out['wall_s'] = time.time() - t0
             return out
+        except core.Inconclusive as e:
+            ex.inconclusive = str(e)
+        finally:
+            try:
+                signal.alarm(0)
+                faulthandler.cancel_dump_traceback_later()
+            except (ValueError, OSError):
+                pass
         st = ex.stats
         out.update(paths=st.paths, paths_ok=st.paths_ok, queries=st.queries, solver_s=round(st.solver_s, 3),
                    unknowns=st.unknowns, max_depth=st.max_depth, unsat_answers=getattr(st, 'unsat_answers', 0),
@@ -135,12 +186,13 @@ def _run_one(prop, tier, name, seed):
             elif kind == 'fuel':
                 out['violations'].append({'msg': 'loop budget exhausted outside a harness guard', 'key': None, 'replay': None})
         out['requires'] = nreq
-        if ob.optimize:
+        if ob.optimize or ob.debug_log:
+            mode = '-O' if ob.optimize else 'debug-logging'
             for info in out['oks']:
                 if isinstance(info, dict):
-                    _mark_mode(info.get('replay'))
+                    _mark_mode(info.get('replay'), mode)
             for v in out['violations']:
-                _mark_mode(v.get('replay'))
+                _mark_mode(v.get('replay'), mode)
         if ex.inconclusive:
             out['inconclusive_reason'] = ex.inconclusive
         if out['violations']:
@@ -179,7 +231,8 @@ def run_replays(specs, timeout=120):
     for mode in sorted({s.get('mode', 'normal') for s in specs}):
         idx = [i for i, s in enumerate(specs) if s.get('mode', 'normal') == mode]
         payload = json.dumps([specs[i] for i in idx])
-        cmd = [PY] + (['-O'] if mode == '-O' else []) + [os.path.join(ROOT, 'vsym', 'replay_main.py'), '--batch', '-']
+        cmd = [PY] + (['-O'] if mode == '-O' else []) + [os.path.join(ROOT, 'vsym', 'replay_main.py')] + \
+            (['--debug-logging'] if mode == 'debug-logging' else []) + ['--batch', '-']
         res = None
         err = ''
         for attempt in (1, 2):          # a loaded machine must not turn a violation into "did not reproduce": retry once, generously
